@@ -1,6 +1,8 @@
 package types
 
 import (
+	"unsafe"
+
 	"verifsk/ext"
 	"verifsk/ext2"
 )
@@ -78,6 +80,8 @@ type Src struct {
 	F40 ext.Box
 	F41 []ext2.T
 	F42 ext2.Code
+	F43 *error
+	F44 unsafe.Pointer
 }
 
 // Dst00: every field has type int.
@@ -125,6 +129,8 @@ type Dst00 struct {
 	F40 int
 	F41 int
 	F42 int
+	F43 int
+	F44 int
 }
 
 // Dst01: every field has type int32.
@@ -172,6 +178,8 @@ type Dst01 struct {
 	F40 int32
 	F41 int32
 	F42 int32
+	F43 int32
+	F44 int32
 }
 
 // Dst02: every field has type int64.
@@ -219,6 +227,8 @@ type Dst02 struct {
 	F40 int64
 	F41 int64
 	F42 int64
+	F43 int64
+	F44 int64
 }
 
 // Dst03: every field has type uint8.
@@ -266,6 +276,8 @@ type Dst03 struct {
 	F40 uint8
 	F41 uint8
 	F42 uint8
+	F43 uint8
+	F44 uint8
 }
 
 // Dst04: every field has type float64.
@@ -313,6 +325,8 @@ type Dst04 struct {
 	F40 float64
 	F41 float64
 	F42 float64
+	F43 float64
+	F44 float64
 }
 
 // Dst05: every field has type string.
@@ -360,6 +374,8 @@ type Dst05 struct {
 	F40 string
 	F41 string
 	F42 string
+	F43 string
+	F44 string
 }
 
 // Dst06: every field has type bool.
@@ -407,6 +423,8 @@ type Dst06 struct {
 	F40 bool
 	F41 bool
 	F42 bool
+	F43 bool
+	F44 bool
 }
 
 // Dst07: every field has type MyInt.
@@ -454,6 +472,8 @@ type Dst07 struct {
 	F40 MyInt
 	F41 MyInt
 	F42 MyInt
+	F43 MyInt
+	F44 MyInt
 }
 
 // Dst08: every field has type MyStr.
@@ -501,6 +521,8 @@ type Dst08 struct {
 	F40 MyStr
 	F41 MyStr
 	F42 MyStr
+	F43 MyStr
+	F44 MyStr
 }
 
 // Dst09: every field has type ext.ID.
@@ -548,6 +570,8 @@ type Dst09 struct {
 	F40 ext.ID
 	F41 ext.ID
 	F42 ext.ID
+	F43 ext.ID
+	F44 ext.ID
 }
 
 // Dst10: every field has type ext.Label.
@@ -595,6 +619,8 @@ type Dst10 struct {
 	F40 ext.Label
 	F41 ext.Label
 	F42 ext.Label
+	F43 ext.Label
+	F44 ext.Label
 }
 
 // Dst11: every field has type S1.
@@ -642,6 +668,8 @@ type Dst11 struct {
 	F40 S1
 	F41 S1
 	F42 S1
+	F43 S1
+	F44 S1
 }
 
 // Dst12: every field has type S2.
@@ -689,6 +717,8 @@ type Dst12 struct {
 	F40 S2
 	F41 S2
 	F42 S2
+	F43 S2
+	F44 S2
 }
 
 // Dst13: every field has type S3.
@@ -736,6 +766,8 @@ type Dst13 struct {
 	F40 S3
 	F41 S3
 	F42 S3
+	F43 S3
+	F44 S3
 }
 
 // Dst14: every field has type Empty.
@@ -783,6 +815,8 @@ type Dst14 struct {
 	F40 Empty
 	F41 Empty
 	F42 Empty
+	F43 Empty
+	F44 Empty
 }
 
 // Dst15: every field has type ext.Pet.
@@ -830,6 +864,8 @@ type Dst15 struct {
 	F40 ext.Pet
 	F41 ext.Pet
 	F42 ext.Pet
+	F43 ext.Pet
+	F44 ext.Pet
 }
 
 // Dst16: every field has type struct{ X int }.
@@ -877,6 +913,8 @@ type Dst16 struct {
 	F40 struct{ X int }
 	F41 struct{ X int }
 	F42 struct{ X int }
+	F43 struct{ X int }
+	F44 struct{ X int }
 }
 
 // Dst17: every field has type *S1.
@@ -924,6 +962,8 @@ type Dst17 struct {
 	F40 *S1
 	F41 *S1
 	F42 *S1
+	F43 *S1
+	F44 *S1
 }
 
 // Dst18: every field has type **S1.
@@ -971,6 +1011,8 @@ type Dst18 struct {
 	F40 **S1
 	F41 **S1
 	F42 **S1
+	F43 **S1
+	F44 **S1
 }
 
 // Dst19: every field has type *int.
@@ -1018,6 +1060,8 @@ type Dst19 struct {
 	F40 *int
 	F41 *int
 	F42 *int
+	F43 *int
+	F44 *int
 }
 
 // Dst20: every field has type []int.
@@ -1065,6 +1109,8 @@ type Dst20 struct {
 	F40 []int
 	F41 []int
 	F42 []int
+	F43 []int
+	F44 []int
 }
 
 // Dst21: every field has type []MyInt.
@@ -1112,6 +1158,8 @@ type Dst21 struct {
 	F40 []MyInt
 	F41 []MyInt
 	F42 []MyInt
+	F43 []MyInt
+	F44 []MyInt
 }
 
 // Dst22: every field has type []S1.
@@ -1159,6 +1207,8 @@ type Dst22 struct {
 	F40 []S1
 	F41 []S1
 	F42 []S1
+	F43 []S1
+	F44 []S1
 }
 
 // Dst23: every field has type []*S1.
@@ -1206,6 +1256,8 @@ type Dst23 struct {
 	F40 []*S1
 	F41 []*S1
 	F42 []*S1
+	F43 []*S1
+	F44 []*S1
 }
 
 // Dst24: every field has type [][]S1.
@@ -1253,6 +1305,8 @@ type Dst24 struct {
 	F40 [][]S1
 	F41 [][]S1
 	F42 [][]S1
+	F43 [][]S1
+	F44 [][]S1
 }
 
 // Dst25: every field has type []string.
@@ -1300,6 +1354,8 @@ type Dst25 struct {
 	F40 []string
 	F41 []string
 	F42 []string
+	F43 []string
+	F44 []string
 }
 
 // Dst26: every field has type []interface{}.
@@ -1347,6 +1403,8 @@ type Dst26 struct {
 	F40 []interface{}
 	F41 []interface{}
 	F42 []interface{}
+	F43 []interface{}
+	F44 []interface{}
 }
 
 // Dst27: every field has type []ext.Pet.
@@ -1394,6 +1452,8 @@ type Dst27 struct {
 	F40 []ext.Pet
 	F41 []ext.Pet
 	F42 []ext.Pet
+	F43 []ext.Pet
+	F44 []ext.Pet
 }
 
 // Dst28: every field has type map[string]int.
@@ -1441,6 +1501,8 @@ type Dst28 struct {
 	F40 map[string]int
 	F41 map[string]int
 	F42 map[string]int
+	F43 map[string]int
+	F44 map[string]int
 }
 
 // Dst29: every field has type interface{}.
@@ -1488,6 +1550,8 @@ type Dst29 struct {
 	F40 interface{}
 	F41 interface{}
 	F42 interface{}
+	F43 interface{}
+	F44 interface{}
 }
 
 // Dst30: every field has type error.
@@ -1535,6 +1599,8 @@ type Dst30 struct {
 	F40 error
 	F41 error
 	F42 error
+	F43 error
+	F44 error
 }
 
 // Dst31: every field has type func().
@@ -1582,6 +1648,8 @@ type Dst31 struct {
 	F40 func()
 	F41 func()
 	F42 func()
+	F43 func()
+	F44 func()
 }
 
 // Dst32: every field has type chan int.
@@ -1629,6 +1697,8 @@ type Dst32 struct {
 	F40 chan int
 	F41 chan int
 	F42 chan int
+	F43 chan int
+	F44 chan int
 }
 
 // Dst33: every field has type [2]int.
@@ -1676,6 +1746,8 @@ type Dst33 struct {
 	F40 [2]int
 	F41 [2]int
 	F42 [2]int
+	F43 [2]int
+	F44 [2]int
 }
 
 // Dst34: every field has type fmtStringer.
@@ -1723,6 +1795,8 @@ type Dst34 struct {
 	F40 fmtStringer
 	F41 fmtStringer
 	F42 fmtStringer
+	F43 fmtStringer
+	F44 fmtStringer
 }
 
 // Dst35: every field has type *MyInt.
@@ -1770,6 +1844,8 @@ type Dst35 struct {
 	F40 *MyInt
 	F41 *MyInt
 	F42 *MyInt
+	F43 *MyInt
+	F44 *MyInt
 }
 
 // Dst36: every field has type *S3.
@@ -1817,6 +1893,8 @@ type Dst36 struct {
 	F40 *S3
 	F41 *S3
 	F42 *S3
+	F43 *S3
+	F44 *S3
 }
 
 // Dst37: every field has type *ext.ID.
@@ -1864,6 +1942,8 @@ type Dst37 struct {
 	F40 *ext.ID
 	F41 *ext.ID
 	F42 *ext.ID
+	F43 *ext.ID
+	F44 *ext.ID
 }
 
 // Dst38: every field has type []*S3.
@@ -1911,6 +1991,8 @@ type Dst38 struct {
 	F40 []*S3
 	F41 []*S3
 	F42 []*S3
+	F43 []*S3
+	F44 []*S3
 }
 
 // Dst39: every field has type []*MyInt.
@@ -1958,6 +2040,8 @@ type Dst39 struct {
 	F40 []*MyInt
 	F41 []*MyInt
 	F42 []*MyInt
+	F43 []*MyInt
+	F44 []*MyInt
 }
 
 // Dst40: every field has type ext.Box.
@@ -2005,6 +2089,8 @@ type Dst40 struct {
 	F40 ext.Box
 	F41 ext.Box
 	F42 ext.Box
+	F43 ext.Box
+	F44 ext.Box
 }
 
 // Dst41: every field has type []ext2.T.
@@ -2052,6 +2138,8 @@ type Dst41 struct {
 	F40 []ext2.T
 	F41 []ext2.T
 	F42 []ext2.T
+	F43 []ext2.T
+	F44 []ext2.T
 }
 
 // Dst42: every field has type ext2.Code.
@@ -2099,4 +2187,104 @@ type Dst42 struct {
 	F40 ext2.Code
 	F41 ext2.Code
 	F42 ext2.Code
+	F43 ext2.Code
+	F44 ext2.Code
+}
+
+// Dst43: every field has type *error.
+type Dst43 struct {
+	F00 *error
+	F01 *error
+	F02 *error
+	F03 *error
+	F04 *error
+	F05 *error
+	F06 *error
+	F07 *error
+	F08 *error
+	F09 *error
+	F10 *error
+	F11 *error
+	F12 *error
+	F13 *error
+	F14 *error
+	F15 *error
+	F16 *error
+	F17 *error
+	F18 *error
+	F19 *error
+	F20 *error
+	F21 *error
+	F22 *error
+	F23 *error
+	F24 *error
+	F25 *error
+	F26 *error
+	F27 *error
+	F28 *error
+	F29 *error
+	F30 *error
+	F31 *error
+	F32 *error
+	F33 *error
+	F34 *error
+	F35 *error
+	F36 *error
+	F37 *error
+	F38 *error
+	F39 *error
+	F40 *error
+	F41 *error
+	F42 *error
+	F43 *error
+	F44 *error
+}
+
+// Dst44: every field has type unsafe.Pointer.
+type Dst44 struct {
+	F00 unsafe.Pointer
+	F01 unsafe.Pointer
+	F02 unsafe.Pointer
+	F03 unsafe.Pointer
+	F04 unsafe.Pointer
+	F05 unsafe.Pointer
+	F06 unsafe.Pointer
+	F07 unsafe.Pointer
+	F08 unsafe.Pointer
+	F09 unsafe.Pointer
+	F10 unsafe.Pointer
+	F11 unsafe.Pointer
+	F12 unsafe.Pointer
+	F13 unsafe.Pointer
+	F14 unsafe.Pointer
+	F15 unsafe.Pointer
+	F16 unsafe.Pointer
+	F17 unsafe.Pointer
+	F18 unsafe.Pointer
+	F19 unsafe.Pointer
+	F20 unsafe.Pointer
+	F21 unsafe.Pointer
+	F22 unsafe.Pointer
+	F23 unsafe.Pointer
+	F24 unsafe.Pointer
+	F25 unsafe.Pointer
+	F26 unsafe.Pointer
+	F27 unsafe.Pointer
+	F28 unsafe.Pointer
+	F29 unsafe.Pointer
+	F30 unsafe.Pointer
+	F31 unsafe.Pointer
+	F32 unsafe.Pointer
+	F33 unsafe.Pointer
+	F34 unsafe.Pointer
+	F35 unsafe.Pointer
+	F36 unsafe.Pointer
+	F37 unsafe.Pointer
+	F38 unsafe.Pointer
+	F39 unsafe.Pointer
+	F40 unsafe.Pointer
+	F41 unsafe.Pointer
+	F42 unsafe.Pointer
+	F43 unsafe.Pointer
+	F44 unsafe.Pointer
 }
